@@ -56,7 +56,7 @@ def node_enc(n):
     if n["k"] == "l": return "L" + hx(n["text"])
     return f"F{n['cid']}.{n['size']}.{n['mtime']}"
 
-def translate(calls, dst_root, src_root, owners, meta):
+def translate(calls, dst_root, src_root, owners, meta, acts=None):
     """observed mutating calls -> (full-form model steps, per-owner kind lists, count). `owners`: path -> owning task path;
     `meta`: task path -> (cid, size, mtime)"""
     steps, per_owner = [], {}
@@ -65,12 +65,16 @@ def translate(calls, dst_root, src_root, owners, meta):
     def rel(p):
         p = os.path.normpath(p)
         return os.path.relpath(p, dst_root) if p.startswith(dst_root + "/") else None
-    def owner_of(r):
+    acts = acts or {}
+    def owner_of(r, writing=False):
+        # a stale destination entry named like the working file of a planned transfer is itself a (delete) task: its removal belongs to
+        # that task, but the file the transfer then creates, writes and renames under the same name belongs to the transfer
+        if writing and r.endswith(".sy.tmp") and acts.get(r) == "d" and acts.get(r[:-7]) in ("u", "c"): return r[:-7]
         if r in owners: return owners[r]
         if r.endswith(".sy.tmp") and r[:-7] in owners: return r[:-7]
         return r
     def add(kind, r, text):
-        steps.append(text); per_owner.setdefault(owner_of(r), []).append(kind)
+        steps.append(text); per_owner.setdefault(owner_of(r, kind in ("createTemp", "openTrunc", "grow", "utimens")), []).append(kind)
     for pid, call, args, res in calls:
         if res.startswith("-1"): continue
         q = ts.quoted(args)
@@ -88,7 +92,7 @@ def translate(calls, dst_root, src_root, owners, meta):
             if not re.search(r"O_WRONLY|O_RDWR", args) or "O_TRUNC" not in args and "O_CREAT" not in args: continue
             fp = ts.fd_paths(res); r = rel(fp[0]) if fp else None
             if not r: continue
-            o = owner_of(r); cid = meta.get(o, (0, 0, 0))[0]
+            o = owner_of(r, True); cid = meta.get(o, (0, 0, 0))[0]
             if r.endswith(".sy.tmp") and o != r:
                 if "O_TRUNC" in args or "O_CREAT" in args: add("createTemp", r, f"createTemp:{enc_path(r)}:{cid}")
             else:
@@ -96,19 +100,19 @@ def translate(calls, dst_root, src_root, owners, meta):
         elif call == "copy_file_range":
             fp = ts.fd_paths(args); r = rel(fp[1]) if len(fp) > 1 else None
             n = int(res.split()[0]) if res.split()[0].isdigit() else 0
-            if r and n > 0 and not (r.endswith(".sy.tmp") and owner_of(r) != r):
+            if r and n > 0 and not (r.endswith(".sy.tmp") and owner_of(r, True) != r):
                 grown[r] = grown.get(r, 0) + n; cid = meta.get(owner_of(r), (0, 0, 0))[0]
                 add("grow", r, f"grow:{enc_path(r)}:{cid}:{grown[r]}")
         elif call in ("write", "pwrite64"):
             fp = ts.fd_paths(args); r = rel(fp[0]) if fp else None
             n = int(res.split()[0]) if res.split()[0].isdigit() else 0
-            if r and n > 0 and not (r.endswith(".sy.tmp") and owner_of(r) != r):
+            if r and n > 0 and not (r.endswith(".sy.tmp") and owner_of(r, True) != r):
                 grown[r] = grown.get(r, 0) + n; cid = meta.get(owner_of(r), (0, 0, 0))[0]
                 add("grow", r, f"grow:{enc_path(r)}:{cid}:{grown[r]}")
         elif call == "utimensat":
             r = rel(q[0]) if q else None
             m = re.findall(r"tv_sec=(\d+), tv_nsec=(\d+)", args)
-            if r and len(m) >= 2 and not (r.endswith(".sy.tmp") and owner_of(r) != r):
+            if r and len(m) >= 2 and not (r.endswith(".sy.tmp") and owner_of(r, True) != r):
                 add("utimens", r, f"utimens:{enc_path(r)}:{int(m[1][0]) * 10**9 + int(m[1][1])}")
         elif call == "rename":
             a, b = (rel(q[0]), rel(q[1])) if len(q) >= 2 else (None, None)
@@ -232,7 +236,7 @@ def run_c05(tier, seed, work, ncases):
                                   prefix=["strace", "-f", "-y", "-qq", "-s", "0", "-o", log, "-e", "trace=" + ",".join(ts.MUT)])
             post_dst = snapshot(dst_root, contents)
             calls = ts.parse_trace(log) if os.path.exists(log) else []
-            steps, per_owner, _ = translate(calls, dst_root, src_root, owners, meta)
+            steps, per_owner, _ = translate(calls, dst_root, src_root, owners, meta, acts=tasks)
             desc = {"case": ci, "seed": seed, "flags": flags, "env": env, "rc": rc, "tasks": {r: a for r, a in sorted(tasks.items()) if a != "s"}}
             traces += 1
             rep.case((tuple(flags), tuple(sorted(tasks.items())), tuple(sorted(pre_dst))), len([o for o in per_owner if per_owner[o]]) >= 2)
@@ -479,7 +483,7 @@ def one_crash(rep, drv, contents, ti, seed, case_dir, flags, cfg, env, call, k, 
                           prefix=["strace", "-f", "-y", "-qq", "-s", "0", "-o", log, "-e", "trace=" + ",".join(ts.MUT), "-e", f"inject={call}:signal=KILL:when={k}"])
     crash = snapshot(dst_root, contents); post_src = snapshot(src_root, contents)
     calls = ts.parse_trace(log) if os.path.exists(log) else []
-    steps, per_owner, maybe = translate(calls, dst_root, src_root, owners, meta)
+    steps, per_owner, maybe = translate(calls, dst_root, src_root, owners, meta, acts=tasks)
     desc = {"tree": ti, "seed": seed, "flags": flags, "env": env, "kill": [call, k], "rc": rc, "tasks": {r: a for r, a in sorted(tasks.items()) if a != "s"},
             "observed_prefix": [s.split(":")[0] + ":" + dec_path(s.split(":")[1]) for s in steps[-6:]]}
     killed = rc is not None and rc < 0
